@@ -64,6 +64,7 @@ type coDrv struct {
 	tw     *trace.Writer
 	rng    *rand.Rand
 	R, N   int
+	K      int // replicas of the initial layout (<= R)
 	reg    *cluster.VerifMemRegister
 	pd     *pdnode_coord.PDCoordinator
 	alive  map[int]bool
@@ -185,19 +186,20 @@ func (d *coDrv) begin(info string) error {
 		d.alive[i] = true
 		al = append(al, i)
 	}
-	d.tw.Emit(trace.M{"ev": "reset", "R": d.R, "N": d.N, "alive": al, "info": info})
+	d.tw.Emit(trace.M{"ev": "reset", "R": d.R, "N": d.N, "K": d.K, "alive": al, "info": info})
 	d.reg = cluster.NewVerifMemRegister()
 	if err := d.reg.CreateNamespace(coNS, &cluster.NamespaceMetaInfo{PartitionNum: 1, Replica: d.R}); err != nil {
 		return err
 	}
 	pri := cluster.PartitionReplicaInfo{RaftIDs: map[string]uint64{}, Removings: map[string]cluster.RemovingInfo{}}
-	for i := 1; i <= d.R; i++ {
+	for i := 1; i <= d.K; i++ {
 		id := d.nodes[i-1].info.ID
 		pri.RaftNodes = append(pri.RaftNodes, id)
 		pri.MaxRaftID++
 		pri.RaftIDs[id] = uint64(pri.MaxRaftID)
 		d.st.members[i] = uint64(pri.MaxRaftID)
 	}
+	pri.MaxRaftID = int64(d.R) // K < R: a partition that lost replicas earlier, their ids are used up
 	if err := d.reg.UpdateNamespacePartReplicaInfo(coNS, 0, &pri, 0); err != nil {
 		return err
 	}
@@ -451,6 +453,7 @@ func coordsim(args []string) error {
 	seed := fs.Int64("seed", 1, "seed")
 	R := fs.Int("R", 3, "replication factor")
 	N := fs.Int("N", 4, "data nodes")
+	K := fs.Int("K", 0, "replicas of the initial layout (0 = R); must be a strict majority of R")
 	sim := fs.String("sim", "", "directory with TLC -simulate files of MC_ZCoord (every file = one behaviour)")
 	script := fs.String("script", "", "a single script: labels separated by ';' e.g. 'NodeDown(2);Migrate(\"cur\")'")
 	limit := fs.Int("limit", 0, "replay at most this many behaviours (0 = all)")
@@ -461,6 +464,10 @@ func coordsim(args []string) error {
 	pdnode_coord.VerifSetIntervals(0, 0)
 	d := &coDrv{st: &coStub{}, byID: map[string]int{}, rng: rand.New(rand.NewSource(*seed)), R: *R, N: *N,
 		stats: map[string]int{}}
+	d.K = *K
+	if d.K <= 0 || d.K > d.R {
+		d.K = d.R
+	}
 	for i := 1; i <= *N; i++ {
 		if err := d.startNode(i); err != nil {
 			return err
@@ -523,7 +530,7 @@ func coordsim(args []string) error {
 	d.st.mu.Lock()
 	nreq := d.st.nreq
 	d.st.mu.Unlock()
-	summary(map[string]interface{}{"driver": "coordsim", "seed": *seed, "R": *R, "N": *N, "behaviours": len(behaviours),
+	summary(map[string]interface{}{"driver": "coordsim", "seed": *seed, "R": *R, "N": *N, "K": d.K, "behaviours": len(behaviours),
 		"labels": steps, "events": tw.N, "http_requests_answered": nreq, "stats": d.stats})
 	return nil
 }
